@@ -366,8 +366,8 @@ VerdictOf ==
              "report_failfile", "check_crashed"},
     C07 |-> {"report_seed", "seed_replay_differs", "seed_run_differs", "repro_seed"},
     C09 |-> {"gen_after_failure", "gen_beyond_budget", "vacuous_pass", "pass_count", "no_failnow", "stopped_early",
-             "onlygen_despite_enough", "extra_invocations", "gen_before_failfiles", "pass_without_verdict",
-             "failed_without_report", "onlygen_count", "ret_budget", "early_exit_without_deadline"},
+             "onlygen_despite_enough", "extra_invocations", "gen_before_failfiles", "ff_not_found", "pass_without_verdict",
+             "failed_without_report", "onlygen_count", "ret_budget", "early_exit_without_deadline", "early_exit_too_early"},
     C11 |-> {"phantom_failure", "lost_failure", "reported_failure_never_happened", "flaky_report", "skip_misjudged",
              "label_carried_over", "failure_message", "dead_context_in_body"},
     C17 |-> {"ff_ignored_silently", "ff_changed_verdict", "ff_changed_cases", "ff_after_failure", "ff_order", "unusable_file_used",
